@@ -499,6 +499,8 @@ class Program:
                 for stmt in cls.node.body:
                     if isinstance(stmt, ast.Assign) and len(stmt.targets) == 1 and isinstance(stmt.targets[0], ast.Name):
                         cls.enum_members[stmt.targets[0].id] = stmt.value
+        self._devirtualise_singledispatch()
+        self._inline_decorator_factories()
         self._eliminate_memo_tables()
         self._inline_expression_helpers()
         self._expand_keyword_helpers()
@@ -513,6 +515,292 @@ class Program:
             for node in ast.walk(mod.tree):
                 for child in ast.iter_child_nodes(node):
                     self._parents[id(child)] = node
+
+    # -- N25 ---------------------------------------------------------------------------------------------------------
+    def _devirtualise_singledispatch(self):
+        """N25  functools.singledispatch written out:
+
+                   @singledispatch                                def f(x, a):
+                   def f(x, a): DEFAULT                               if isinstance(x, T1): return g1(x, a)
+                   @f.register(T1)                         ->         if x is None: return g2(x, a)          (for type(None))
+                   def g1(x, a): ...                                  DEFAULT
+                   @f.register(type(None))                        def g1(x, a): ...      def g2(x, a): ...
+                   def g2(x, a): ...
+
+           (registered classes tested most-derived first; dispatch follows the class of the first argument through its MRO, which is
+           what isinstance tests when no class derives from two registered ones - builtins and package classes with single
+           inheritance);  `f.dispatch(v.__class__)(v, a)` / `f.dispatch(type(v))(v, a)` -> `f(v, a)`.  Registrations by annotation
+           only, `register` called as a function, or a dispatch on anything but the first argument's own class are left alone."""
+        import copy
+        self.singledispatch_written_out: List[str] = []
+        for mod in self.modules.values():
+            generic: Dict[str, FuncInfo] = {}
+            for f in mod.functions.values():
+                if isinstance(f.node, ast.FunctionDef) and len(f.node.decorator_list) == 1:
+                    d = f.node.decorator_list[0]
+                    sym = self.resolve_expr_symbol(mod, d) if isinstance(d, (ast.Name, ast.Attribute)) else None
+                    if isinstance(sym, tuple) and sym[0] == 'ext' and sym[1] == 'functools.singledispatch' and f.node.args.args and \
+                            not f.node.args.posonlyargs:
+                        generic[f.name] = f
+            if not generic:
+                continue
+            regs: Dict[str, List[Tuple[ast.expr, FuncInfo]]] = {g: [] for g in generic}
+            ok_mod = True
+            for f in mod.functions.values():
+                if not isinstance(f.node, ast.FunctionDef):
+                    continue
+                for d in f.node.decorator_list:
+                    if isinstance(d, ast.Call) and isinstance(d.func, ast.Attribute) and d.func.attr == 'register' and \
+                            isinstance(d.func.value, ast.Name) and d.func.value.id in generic:
+                        if len(d.args) != 1 or d.keywords or len(f.node.decorator_list) != 1:
+                            ok_mod = False
+                        else:
+                            regs[d.func.value.id].append((d.args[0], f))
+                    elif isinstance(d, ast.Attribute) and d.attr == 'register' and isinstance(d.value, ast.Name) and d.value.id in generic:
+                        ok_mod = False          # registration by annotation
+            # `f.register(...)` used in any other way, `f.registry`, ... : leave the module alone
+            for x in ast.walk(mod.tree):
+                if isinstance(x, ast.Attribute) and isinstance(x.value, ast.Name) and x.value.id in generic and x.attr not in ('register', 'dispatch'):
+                    ok_mod = False
+                if isinstance(x, ast.Attribute) and isinstance(x.value, ast.Name) and x.value.id in generic and x.attr == 'register':
+                    par_ok = any(isinstance(fn_.node, ast.FunctionDef) and any(d_ is par_ or (isinstance(d_, ast.Call) and d_.func is x)
+                                                                                  for d_ in fn_.node.decorator_list for par_ in [x])
+                                 for fn_ in mod.functions.values())
+                    if not par_ok:
+                        ok_mod = False
+            if not ok_mod:
+                continue
+
+            def rank(t: ast.expr) -> int:
+                """more derived classes first"""
+                sym_ = self.resolve_expr_symbol(mod, t) if isinstance(t, (ast.Name, ast.Attribute)) else None
+                if isinstance(sym_, ClassInfo):
+                    return -len(self.ancestors(sym_))
+                if isinstance(t, ast.Name) and t.id == 'bool':
+                    return -2
+                if isinstance(t, ast.Name) and t.id == 'object':
+                    return 0
+                return -1
+            for gname, g in generic.items():
+                first = g.node.args.args[0].arg
+                others = [a_.arg for a_ in g.node.args.args[1:]]
+                kwonly = [a_.arg for a_ in g.node.args.kwonlyargs]
+                if g.node.args.vararg or g.node.args.kwarg:
+                    continue
+                tests = []
+                good = True
+                for t, impl in sorted(regs[gname], key=lambda p_: rank(p_[0])):
+                    ia = impl.node.args
+                    if len(ia.args) != len(g.node.args.args) or ia.vararg or ia.kwarg or ia.posonlyargs:
+                        good = False
+                        break
+                    if isinstance(t, ast.Call) and isinstance(t.func, ast.Name) and t.func.id == 'type' and len(t.args) == 1 and \
+                            isinstance(t.args[0], ast.Constant) and t.args[0].value is None:
+                        test = ast.Compare(left=ast.Name(id=first, ctx=ast.Load()), ops=[ast.Is()], comparators=[ast.Constant(value=None)])
+                    elif isinstance(t, (ast.Name, ast.Attribute)):
+                        test = ast.Call(func=ast.Name(id='isinstance', ctx=ast.Load()), args=[ast.Name(id=first, ctx=ast.Load()), copy.deepcopy(t)], keywords=[])
+                    else:
+                        good = False
+                        break
+                    call = ast.Call(func=ast.Name(id=impl.name, ctx=ast.Load()),
+                                    args=[ast.Name(id=n_, ctx=ast.Load()) for n_ in [first] + others],
+                                    keywords=[ast.keyword(arg=k_, value=ast.Name(id=k_, ctx=ast.Load())) for k_ in kwonly])
+                    tests.append(ast.If(test=test, body=[ast.Return(value=call)], orelse=[]))
+                if not good:
+                    continue
+                for st in tests:
+                    for x in ast.walk(st):
+                        if isinstance(x, (ast.expr, ast.stmt)):
+                            x.lineno, x.col_offset = g.node.lineno, g.node.col_offset
+                            x.end_lineno, x.end_col_offset = g.node.lineno, g.node.col_offset
+                k0 = 1 if g.node.body and isinstance(g.node.body[0], ast.Expr) and isinstance(g.node.body[0].value, ast.Constant) else 0
+                g.node.body = g.node.body[:k0] + tests + g.node.body[k0:]
+                g.node.decorator_list = []
+                for _t, impl in regs[gname]:
+                    impl.node.decorator_list = []
+                self.singledispatch_written_out.append(g.fq)
+            # f.dispatch(v.__class__)(v, ...)  ->  f(v, ...)      (in every module that can name f)
+            done = set(self.singledispatch_written_out)
+
+            class Rew(ast.NodeTransformer):
+                def visit_Call(self_, n_):
+                    self_.generic_visit(n_)
+                    f_ = n_.func
+                    if isinstance(f_, ast.Call) and isinstance(f_.func, ast.Attribute) and f_.func.attr == 'dispatch' and len(f_.args) == 1 \
+                            and not f_.keywords and n_.args and isinstance(f_.func.value, (ast.Name, ast.Attribute)):
+                        tgt = self.resolve_expr_symbol(self_.mod, f_.func.value)
+                        if isinstance(tgt, FuncInfo) and tgt.fq in done:
+                            k_ = f_.args[0]
+                            a0 = n_.args[0]
+                            subj = k_.value if isinstance(k_, ast.Attribute) and k_.attr == '__class__' else \
+                                k_.args[0] if isinstance(k_, ast.Call) and isinstance(k_.func, ast.Name) and k_.func.id == 'type' and len(k_.args) == 1 else None
+                            if subj is not None and ast.dump(subj) == ast.dump(a0):
+                                return ast.copy_location(ast.Call(func=f_.func.value, args=n_.args, keywords=n_.keywords), n_)
+                    return n_
+            for m2 in self.modules.values():
+                r_ = Rew()
+                r_.mod = m2
+                r_.visit(m2.tree)
+
+    # -- N24 ---------------------------------------------------------------------------------------------------------
+    def _inline_decorator_factories(self):
+        """N24  a function decorated with a wrapper factory of its own module
+
+                   def factory(c, k=None):                         @factory('tag')
+                       def decorate(f):                            def parse_x(elt, ns): BODY
+                           name = f.__name__ if k is None else k
+                           @functools.wraps(f)
+                           def wrapper(element, *args, **kwargs):
+                               PRELUDE(element, c, name)
+                               return f(FIRST, *args, **kwargs)
+                           return wrapper
+                       return decorate
+
+           is the function the decorator makes of it:   def parse_x(element, ns): name = 'parse_x'; PRELUDE; [elt = FIRST]; BODY
+           (factory arguments are constants of the decoration site, `f.__name__` is the name of the decorated function, conditional
+           expressions over those constants are folded; the decorator's locals are renamed apart where they clash).  Only this
+           exact shape - a wrapper that runs a prelude and then calls the decorated function once, as its last statement, handing
+           on every further argument unchanged - is rewritten; any other decorator is left alone (and the rules see a decorated
+           function as before).  The rewritten functions are listed in `decorators_inlined`."""
+        import copy
+        self.decorators_inlined: List[Tuple[str, str]] = []
+
+        def is_const(e) -> bool:
+            return isinstance(e, ast.Constant) or (isinstance(e, (ast.Tuple, ast.List)) and all(is_const(x) for x in e.elts)) or (
+                isinstance(e, ast.UnaryOp) and isinstance(e.operand, ast.Constant))
+
+        def shape(factory: FuncInfo):
+            body = [st for st in factory.node.body if not (isinstance(st, ast.Expr) and isinstance(st.value, ast.Constant))]
+            # argument checks of the factory itself (evaluated once, at import) may precede the inner function
+            while body and isinstance(body[0], ast.If) and all(isinstance(x, ast.Raise) for x in body[0].body) and not body[0].orelse:
+                body = body[1:]
+            if len(body) != 2 or not isinstance(body[0], ast.FunctionDef) or not isinstance(body[1], ast.Return) or \
+                    not (isinstance(body[1].value, ast.Name) and body[1].value.id == body[0].name):
+                return None
+            deco = body[0]
+            if len(deco.args.args) != 1 or deco.args.vararg or deco.args.kwarg or deco.args.kwonlyargs:
+                return None
+            fparam = deco.args.args[0].arg
+            dbody = [st for st in deco.body if not (isinstance(st, ast.Expr) and isinstance(st.value, ast.Constant))]
+            pre_assigns, wrapper = [], None
+            for st in dbody:
+                if isinstance(st, ast.FunctionDef) and wrapper is None:
+                    wrapper = st
+                elif wrapper is None and isinstance(st, ast.Assign) and len(st.targets) == 1 and isinstance(st.targets[0], ast.Name):
+                    pre_assigns.append(st)
+                elif wrapper is not None and isinstance(st, ast.Assign) and len(st.targets) == 1 and isinstance(st.targets[0], ast.Attribute) \
+                        and isinstance(st.targets[0].value, ast.Name) and st.targets[0].value.id == wrapper.name:
+                    continue            # an informational attribute on the wrapper
+                elif wrapper is not None and isinstance(st, ast.Return) and isinstance(st.value, ast.Name) and st.value.id == wrapper.name:
+                    continue
+                else:
+                    return None
+            if wrapper is None:
+                return None
+            wa = wrapper.args
+            if len(wa.args) != 1 or wa.vararg is None or wa.kwarg is None or wa.kwonlyargs or wa.defaults or wa.posonlyargs:
+                return None
+            wbody = [st for st in wrapper.body if not (isinstance(st, ast.Expr) and isinstance(st.value, ast.Constant))]
+            if not wbody or not isinstance(wbody[-1], ast.Return) or not isinstance(wbody[-1].value, ast.Call):
+                return None
+            call = wbody[-1].value
+            if not (isinstance(call.func, ast.Name) and call.func.id == fparam and len(call.args) == 2 and
+                    isinstance(call.args[1], ast.Starred) and isinstance(call.args[1].value, ast.Name) and call.args[1].value.id == wa.vararg.arg
+                    and len(call.keywords) == 1 and call.keywords[0].arg is None and isinstance(call.keywords[0].value, ast.Name)
+                    and call.keywords[0].value.id == wa.kwarg.arg):
+                return None
+            prelude = wbody[:-1]
+            if any(isinstance(x, (ast.Return, ast.Yield, ast.YieldFrom, ast.FunctionDef, ast.Lambda, ast.Global, ast.Nonlocal))
+                   for st in prelude for x in ast.walk(st)):
+                return None
+            if any(isinstance(x, ast.Name) and x.id in (fparam, wa.vararg.arg, wa.kwarg.arg) and not (
+                    isinstance(self._parents.get(id(x)), ast.Attribute) and self._parents[id(x)].attr == '__name__')
+                    for st in prelude + pre_assigns for x in ast.walk(st)):
+                return None
+            return deco, fparam, pre_assigns, wrapper, prelude, call.args[0]
+
+        for fn in list(self.functions.values()):
+            node = fn.node
+            if not isinstance(node, ast.FunctionDef) or len(node.decorator_list) != 1 or fn.cls is not None or fn.parent is not None:
+                continue
+            d = node.decorator_list[0]
+            if not (isinstance(d, ast.Call) and isinstance(d.func, ast.Name)):
+                continue
+            factory = self.resolve_name(fn.module, d.func.id)
+            if not isinstance(factory, FuncInfo) or factory.module is not fn.module or factory.cls is not None or factory is fn:
+                continue
+            sh = shape(factory)
+            if sh is None or any(isinstance(a_, ast.Starred) for a_ in d.args) or any(k_.arg is None for k_ in d.keywords):
+                continue
+            deco, fparam, pre_assigns, wrapper, prelude, first = sh
+            fa = factory.node.args
+            if fa.vararg or fa.kwarg or fa.posonlyargs:
+                continue
+            fnames = [a_.arg for a_ in fa.args + fa.kwonlyargs]
+            binding: Dict[str, ast.expr] = dict(zip([a_.arg for a_ in fa.args], d.args))
+            for k_ in d.keywords:
+                binding[k_.arg] = k_.value
+            defaults = dict(zip([a_.arg for a_ in fa.args][len(fa.args) - len(fa.defaults):], fa.defaults))
+            defaults.update({a_.arg: dv for a_, dv in zip(fa.kwonlyargs, fa.kw_defaults) if dv is not None})
+            for nm in fnames:
+                if nm not in binding and nm in defaults:
+                    binding[nm] = defaults[nm]
+            if set(binding) != set(fnames) or not all(is_const(v) for v in binding.values()):
+                continue
+            na = node.args
+            if not na.args or na.posonlyargs:
+                continue
+            own_first = na.args[0].arg
+            own_names = {x.id for x in ast.walk(node) if isinstance(x, ast.Name)} | {a_.arg for a_ in na.args + na.kwonlyargs}
+            wfirst = wrapper.args.args[0].arg
+            deco_locals = {st.targets[0].id for st in pre_assigns} | {x.id for st in prelude for x in ast.walk(st)
+                                                                      if isinstance(x, ast.Name) and isinstance(x.ctx, ast.Store)} | {wfirst}
+            keep = first.id if isinstance(first, ast.Name) and first.id == own_first else None
+            rename = {nm: f'{nm}__d' for nm in deco_locals if nm in own_names and nm != keep}
+            if any(v in own_names for v in rename.values()):
+                continue
+
+            class Sub(ast.NodeTransformer):
+                def visit_Attribute(self_, n_):
+                    if n_.attr == '__name__' and isinstance(n_.value, ast.Name) and n_.value.id == fparam:
+                        return ast.copy_location(ast.Constant(value=fn.name), n_)
+                    self_.generic_visit(n_)
+                    return n_
+
+                def visit_Name(self_, n_):
+                    if n_.id in rename:
+                        return ast.copy_location(ast.Name(id=rename[n_.id], ctx=n_.ctx), n_)
+                    if n_.id in binding and isinstance(n_.ctx, ast.Load) and n_.id not in deco_locals:
+                        return copy.deepcopy(binding[n_.id])
+                    return n_
+
+                def visit_IfExp(self_, n_):
+                    self_.generic_visit(n_)
+                    t = n_.test
+                    if isinstance(t, ast.Compare) and len(t.ops) == 1 and isinstance(t.left, ast.Constant) and isinstance(t.comparators[0], ast.Constant):
+                        a_, b_ = t.left.value, t.comparators[0].value
+                        op = t.ops[0]
+                        r = (a_ is b_ or a_ == b_) if isinstance(op, (ast.Is, ast.Eq)) else not (a_ is b_ or a_ == b_) if isinstance(op, (ast.IsNot, ast.NotEq)) else None
+                        if r is not None:
+                            return n_.body if r else n_.orelse
+                    return n_
+            new_stmts = [Sub().visit(copy.deepcopy(st)) for st in pre_assigns + prelude]
+            first_new = Sub().visit(copy.deepcopy(first))
+            if not (isinstance(first_new, ast.Name) and first_new.id == own_first):
+                asg = ast.Assign(targets=[ast.Name(id=own_first, ctx=ast.Store())], value=first_new)
+                new_stmts.append(asg)
+            for st in new_stmts:
+                for x in ast.walk(st):
+                    if isinstance(x, (ast.expr, ast.stmt)):
+                        x.lineno, x.col_offset = node.lineno, node.col_offset
+                        x.end_lineno, x.end_col_offset = node.lineno, node.col_offset
+            k0 = 1 if node.body and isinstance(node.body[0], ast.Expr) and isinstance(node.body[0].value, ast.Constant) else 0
+            node.body = node.body[:k0] + new_stmts + node.body[k0:]
+            new_first = copy.deepcopy(wrapper.args.args[0])
+            new_first.arg = rename.get(wfirst, wfirst)
+            na.args[0] = new_first
+            node.decorator_list = []
+            self.decorators_inlined.append((fn.fq, factory.fq))
 
     # -- N23 ---------------------------------------------------------------------------------------------------------
     def _mark_noreturn_calls(self):
@@ -1386,8 +1674,12 @@ class Program:
                                         x.end_lineno, x.end_col_offset = getattr(st, 'end_lineno', 0), getattr(st, 'end_col_offset', 0)
                             blk[i:i + 1] = new
                             self.inlined.append((caller.fq, callee.fq))
-                            if callee.name.startswith('_') and not callee.name.startswith('__') and n_sites.get(fnm, 0) == 1:
-                                # a private step with this single call site: everything it does is in the caller now
+                            own_ids_ = {id(y_) for y_ in ast.walk(callee.node)}
+                            if callee.name.startswith('_') and not callee.name.startswith('__') and n_sites.get(fnm, 0) == 1 and not any(
+                                    isinstance(x_, (ast.Name, ast.Attribute)) and getattr(x_, 'id', getattr(x_, 'attr', None)) == callee.name
+                                    for x_ in ast.walk(callee.module.tree) if id(x_) not in own_ids_):
+                                # a private step with this single call site: everything it does is in the caller now (unless an earlier
+                                # expansion copied the call somewhere else)
                                 self._drop_function(callee)
                             changed = True
                             break
@@ -1444,6 +1736,15 @@ class Program:
             return False
 
         def literal_elems(fnode, it: ast.expr, mod_=None) -> Optional[List[ast.expr]]:
+            # itertools.product(A, B) of two literal / constant sequences: the pairs, first factor slowest (at most 8)
+            if isinstance(it, ast.Call) and not it.keywords and len(it.args) == 2 and mod_ is not None and \
+                    isinstance(it.func, (ast.Name, ast.Attribute)):
+                psym = self.resolve_expr_symbol(mod_, it.func)
+                if isinstance(psym, tuple) and psym[0] == 'ext' and psym[1] == 'itertools.product':
+                    fa, fb = literal_elems(fnode, it.args[0], mod_), literal_elems(fnode, it.args[1], mod_)
+                    if fa is not None and fb is not None and len(fa) * len(fb) <= 8:
+                        return [ast.Tuple(elts=[copy.deepcopy(a_), copy.deepcopy(b_)], ctx=ast.Load()) for a_ in fa for b_ in fb]
+                    return None
             # a module-level dict display of constants that nothing writes: `T.items()` / `T.keys()` / `T.values()` / `T`
             view = None
             base = it
@@ -1491,6 +1792,15 @@ class Program:
                 elif isinstance(target, (ast.Tuple, ast.List)) and all(isinstance(t, ast.Name) for t in target.elts) and \
                         isinstance(el, (ast.Tuple, ast.List)) and len(el.elts) == len(target.elts) and all(pure(x) for x in el.elts):
                     out.append({t.id: v for t, v in zip(target.elts, el.elts)})
+                elif isinstance(target, (ast.Tuple, ast.List)) and isinstance(el, (ast.Tuple, ast.List)) and len(el.elts) == len(target.elts):
+                    # nested targets `(a, b), (c, d)` against nested displays
+                    b_: Dict[str, ast.expr] = {}
+                    for t, v in zip(target.elts, el.elts):
+                        sub = bindings(t, [v])
+                        if sub is None:
+                            return None
+                        b_.update(sub[0])
+                    out.append(b_)
                 else:
                     return None
             return out
@@ -2645,6 +2955,18 @@ class TypeEnv:
             return t_cls(ft[1])
         if ft[0] == 'func':
             fi: FuncInfo = ft[1]
+            if isinstance(f, ast.Attribute) and fi.cls is not None and not fi.is_static:
+                # a fluent method (`-> Self`, or every return hands back `self`) called on a receiver of a subclass yields that subclass
+                r_ann = fi.node.returns
+                fluent = (isinstance(r_ann, (ast.Name, ast.Attribute)) and getattr(r_ann, 'id', getattr(r_ann, 'attr', '')) == 'Self') or (
+                    isinstance(r_ann, ast.Constant) and r_ann.value == 'Self')
+                if not fluent and r_ann is None:
+                    rets = [x for x in iter_own_nodes(fi.node) if isinstance(x, ast.Return)]
+                    fluent = bool(rets) and all(isinstance(x.value, ast.Name) and x.value.id == 'self' for x in rets)
+                if fluent:
+                    rt_ = strip_opt(self.type_of(f.value))
+                    if rt_[0] == 'cls' and rt_[1] in prog.classes and prog.is_subclass(rt_[1], fi.cls.fq):
+                        return rt_
             if fi.node.returns is None:
                 return prog.inferred_return_type(fi)
             at = prog.ann_to_type(fi.module, fi.node.returns, fi.cls)
@@ -2865,6 +3187,14 @@ class TypeEnv:
                     for fi in prog.functions.values():
                         if fi.node is encl and fi.cls is not None:
                             sym = prog.lookup_method(fi.cls, arg.attr)
+                if sym is None and isinstance(arg, ast.Name):
+                    # a function defined inside the calling function (or one that encloses it)
+                    encl_ = prog.enclosing_function(arg)
+                    fi_ = next((x for x in prog.functions.values() if x.node is encl_), None)
+                    while fi_ is not None and sym is None:
+                        if arg.id in fi_.nested:
+                            sym = fi_.nested[arg.id]
+                        fi_ = fi_.parent
                 if isinstance(sym, FuncInfo):
                     if sym not in out:
                         out.append(sym)
@@ -3033,9 +3363,10 @@ class TypeEnv:
                         sym = prog.resolve_expr_symbol(mod, c)
                         if isinstance(sym, FuncInfo) and sym not in out:
                             # a reference, not the callee of a call inside the display
+                            in_lambda = {id(q_) for lam in ast.walk(node) if isinstance(lam, ast.Lambda) for q_ in ast.walk(lam.body)}
                             for q in ast.walk(node):
-                                if isinstance(q, ast.Call) and q.func is c:
-                                    par_is_call = True
+                                if isinstance(q, ast.Call) and q.func is c and id(q) not in in_lambda:
+                                    par_is_call = True      # (what a lambda of the table calls IS called when the entry is called)
                             if not par_is_call:
                                 out.append(sym)
         return out
